@@ -22,7 +22,7 @@ from pysmt.environment import Environment
 
 from . import refeval as R
 
-FLAGS = ("let-sequential", "definefun-shadows-binder", "definefun-captures", "undeclared-as-string",
+FLAGS = ("let-extension-issue159", "let-sequential", "definefun-shadows-binder", "definefun-captures", "undeclared-as-string",
          "quoted-symbol-is-plain-token", "string-escape-literal", "cr-not-whitespace", "pop-keeps-declarations",
          "named-ignored")
 
@@ -230,6 +230,7 @@ class Reader(object):
         self.tm = self.env.type_manager
         self.cmds = read_all(text, self.flags)
         self.items = []
+        self.extensions = set()
         self.decls = []          # (cmd_index, name, type)
         self.scope = Scope()
         self.levels = []
@@ -392,6 +393,10 @@ class Reader(object):
                 ps, ret, body, at = sc.defs[n]
                 if ps:
                     raise Reject("arity", n)
+                if "definefun-captures" in F:
+                    # the body is pasted where the name occurs: its free names are captured by
+                    # the binders in force there
+                    return self.ev(body, at, I, loc)
                 return self.ev(body, at, I, {})
             if "undeclared-as-string" in F:
                 try:                       # what pySMT does: a number if Python's Fraction accepts the token
@@ -420,7 +425,17 @@ class Reader(object):
                 if len(set(self.symname(b[0]) for b in x[1])) != len(x[1]) or len(x) != 3 or not x[1]:
                     raise Reject("syntax", "let")
                 new = dict(loc)
-                if "let-sequential" in F:
+                if "let-extension-issue159" in F:
+                    # pySMT extension (kept for its issue 159): a name that means nothing in the
+                    # enclosing scope is visible to the following bindings of the same let
+                    seq = dict(loc)
+                    for b in x[1]:
+                        nm = self.symname(b[0])
+                        v = self.ev(b[1], sc, I, seq)
+                        if nm not in loc and not sc.known(nm) and nm not in ("true", "false"):
+                            seq[nm] = v
+                        new[nm] = v
+                elif "let-sequential" in F:
                     for b in x[1]:
                         new[self.symname(b[0])] = self.ev(b[1], sc, I, new)
                 else:
@@ -464,7 +479,20 @@ class Reader(object):
                     return R.BV(w, v)
                 raise Unsupported("(_ %s ...)" % (x[1],))
             if n == "as":
-                raise Unsupported("as")
+                if len(x) != 3 or not isinstance(x[1], Sym):
+                    raise Reject("syntax", "as")
+                t = self.sort(x[2], sc)
+                nm = x[1].name
+                if nm in loc:
+                    return loc[nm]
+                if nm in sc.consts:
+                    if sc.consts[nm] != t:
+                        raise Reject("sort", "as")
+                    return I.value((nm, t))
+                # pySMT extension (listed, not a mis-reading): (as x S) of an undeclared x introduces
+                # the constant x of sort S
+                self.extensions.add("as-introduces-symbol")
+                return I.value((nm, t))
         # user-defined / declared function symbols
         if n in sc.defs and (n not in THEORY or h.quoted):
             ps, ret, body, at = sc.defs[n]
